@@ -112,32 +112,47 @@ def final_contents(c):
     return cur
 
 
-def classify(c, diff):
-    """known finding C15-parse-error-keeps-stale-aggregates, exact signature only: every differing diagnostic is
-    explained by an import of a package whose file no longer parses (its last good module is still cached)"""
-    final = final_contents(c)
-    broken_pkgs = set()
-    for f, t in final.items():
-        if t.rstrip().endswith("{"):
-            broken_pkgs.add(t.split("\n", 1)[0].replace("package ", "").strip())
-    if not broken_pkgs:
-        return None
-    for f, d in diff.items():
-        text = final.get(f.lstrip("/"))
-        if text is None:
-            return None
-        lines = text.split("\n")
-        for kind, entries in (("missing", d["missing"]), ("extra", d["extra"])):
-            for e in entries:
-                code, line = e.split("@")
-                line = int(line)
-                imp = lines[line] if line < len(lines) else ""
-                target = imp.replace("import data.", "").strip() if imp.startswith("import data.") else None
-                ok = (kind == "missing" and code == "unresolved-import" and target in broken_pkgs) or \
-                     (kind == "extra" and code in ("circular-import", "prefer-package-imports") and target in broken_pkgs)
-                if not ok:
-                    return None
-    return "C15-parse-error-keeps-stale-aggregates"
+def is_broken(text):
+    return text.rstrip().endswith("{")
+
+
+def stale_workspace(c):
+    """the final workspace in which every file that no longer parses is replaced by the last version of it that did
+    (what the server's cache still holds for that URI: finding C15-parse-error-keeps-stale-aggregates); None when no
+    final file is broken. A broken file that never parsed under its current URI has no stale module: it is left out."""
+    cur = {f: t for f, t in c["files"].items() if f.endswith(".rego")}
+    good = {f: (None if is_broken(t) else t) for f, t in cur.items()}
+    cfg = c["files"].get(".regal/config.yaml")
+    for e in c["events"]:
+        k = e["kind"]
+        if k in ("change", "create") and (k == "create" or e["file"] in cur):
+            cur[e["file"]] = e["text"]
+            if not is_broken(e["text"]):
+                good[e["file"]] = e["text"]
+            else:
+                good.setdefault(e["file"], None)
+        elif k == "delete":
+            cur.pop(e["file"], None)
+            good.pop(e["file"], None)
+        elif k == "rename" and e["file"] in cur and e["to"] not in cur:
+            cur[e["to"]] = cur.pop(e["file"])
+            good.pop(e["file"], None)
+            good[e["to"]] = None if is_broken(cur[e["to"]]) else cur[e["to"]]
+        elif k == "config":
+            cfg = e["text"]
+    broken = [f for f, t in cur.items() if is_broken(t)]
+    if not broken:
+        return None, []
+    files = {}
+    for f, t in cur.items():
+        if f in broken:
+            if good.get(f):
+                files[f] = good[f]
+        else:
+            files[f] = t
+    if cfg is not None:
+        files[".regal/config.yaml"] = cfg
+    return files, broken
 
 
 def run(ctx):
@@ -160,7 +175,17 @@ def run(ctx):
             evs.append({"kind": "change", "file": "p1/f1.rego", "text": content(1, [], 1 + (k % 2)), "pauseMs": 0})
         evs.append({"kind": "delete", "file": "p1/f1.rego", "pauseMs": 0})
         cases.append({"id": len(cases), "op": "lsp.history", "files": files, "events": evs})
+    # directed: a file is opened and deleted at once (its parse / lint job is in flight when it disappears), then the
+    # whole workspace is linted again (config change): nothing of the deleted file may survive in the cache
+    for rep in range(4 if ctx.quick else 16):
+        files = {"p0/f0.rego": content(0, [], 0), "p1/f1.rego": content(1, [2], 0), "p2/f2.rego": content(2, [0, 1], 0),
+                 ".regal/config.yaml": CFG3}
+        evs = [{"kind": "open" if rep % 2 == 0 else "change", "file": "p2/f2.rego", "text": content(2, [0, 1], 1), "pauseMs": 0},
+               {"kind": "delete", "file": "p2/f2.rego", "pauseMs": 0},
+               {"kind": "config", "text": CFG2, "pauseMs": 300}]
+        cases.append({"id": len(cases), "op": "lsp.history", "files": files, "events": evs})
     impl = ctx.impl(cases, timeout=3000, procs=6)
+    pending = []
     for c in cases:
         r = impl[c["id"]]
         o = r.get("out") or {}
@@ -186,5 +211,25 @@ def run(ctx):
         ctx.seen(c, ("h", c["id"]) if changed else None)
         ctx.count("events=%d%s" % (len(c["events"]), " diff" if diff else ""))
         if diff:
-            ctx.fail("published diagnostics at quiescence differ from a fresh lint of the final workspace", desc, classify(c, diff), diff)
+            pending.append((c, desc, diff, pub))
+    # exact classification of finding C15-parse-error-keeps-stale-aggregates: the published diagnostics of every
+    # parseable file equal those of a fresh server on the workspace in which the unparseable files are replaced by
+    # their last parseable versions. Anything else is a new violation.
+    alt = []
+    for (c, desc, diff, pub) in pending:
+        files, broken = stale_workspace(c)
+        if files is not None:
+            alt.append({"id": len(alt), "op": "lsp.history", "files": files, "events": [], "_for": c["id"], "_broken": broken})
+    altres = ctx.impl(alt, timeout=3000, procs=6) if alt else {}
+    altby = {a["_for"]: (a, altres[a["id"]].get("out") or {}) for a in alt}
+    for (c, desc, diff, pub) in pending:
+        known = None
+        if c["id"] in altby:
+            a, ao = altby[c["id"]]
+            if ao.get("idle") and "published" in ao:
+                skip = {"/" + f for f in a["_broken"]}
+                same = all(pub.get(f, []) == ao["published"].get(f, []) for f in (set(pub) | set(ao["published"])) - skip)
+                if same:
+                    known = "C15-parse-error-keeps-stale-aggregates"
+        ctx.fail("published diagnostics at quiescence differ from a fresh lint of the final workspace", desc, known, diff)
     ctx.sample({"events": cases[0]["events"], "published": (impl[0].get("out") or {}).get("published")})
